@@ -11,6 +11,6 @@ CONSTANT MaxRangeArr = 3
 CONSTANT Policy = "exact"
 CONSTANT AllowAbandon = TRUE
 CONSTANT LegalOnly = FALSE
-SPECIFICATION Spec
+SPECIFICATION SimSpec
 INVARIANT BehaviourExport
 CHECK_DEADLOCK FALSE
